@@ -16,10 +16,10 @@ T1 = ("Lean 4.33 kernel; axioms propext, Classical.choice, Quot.sound only (audi
 
 CHECKS = {
  "C01": dict(level="proof", tech="Lean 4 inductive invariant (inv_run) + differential correspondence",
-   text="Proof: `inv_run` shows the collector invariant (list shape, queues, tri-colour, sweep safety, closure of the safe set, barrier covers) for EVERY operation sequence of the model — all barrier paths, all collection methods under arbitrary debt or arbitrary enabled micro-step oracles, trace faults at any position; C01.safety / not_condemned / no_internal_fault / call_spares_reachable are corollaries. Tie: T1 oracle-driven correspondence of the model with the real crate plus shadow-graph monitors.",
+   text="Proof: `inv_run` shows the collector invariant (list shape, queues, tri-colour, sweep safety, closure of the safe set, barrier covers) for EVERY operation sequence of the model — all barrier paths, all collection methods under arbitrary debt or arbitrary enabled micro-step oracles, trace faults at any position; C01.safety / not_condemned / no_internal_fault / call_spares_reachable are corollaries; `deref_reads_last_store` / `slot_reads_back_run` / `collect_op_keeps_slots` (a dereference reads the last value stored: collector steps never change the slots of a surviving object, over whole histories). Tie: T1 oracle-driven correspondence of the model with the real crate plus shadow-graph monitors.",
    ref="DESIGN §3.4, §6 C01"),
  "C02": dict(level="proof", tech="Lean 4: tightness invariant of a mutation-free cycle + stability of reachability (all states, unbounded heaps) + correspondence + exact-reclamation monitor",
-   text="Proof: `exactness` (after two consecutive finish_cycle calls from ANY state satisfying the invariant, an allocation is undestructed iff it was strongly reachable — cycles of garbage included, nothing retained conservatively), `shells` (whatever else is still allocated is a value-less shell weakly held by the root or a reachable object), `shell_release` (a shell no reachable weak pointer refers to is released by the next full cycle), `reachable_survives`, per-colour sweep facts. Built on `Tight` (every marked object is justified by reachability when no mutator step intervened), `SameReach` (collector steps never change reachability) and the exit-state/termination theorems of the driver loop. Tie: T1 correspondence; monitor: finish_cycle x2 drop log = complement of shadow reachability; total_gc_count = reachable + weakly held shells.",
+   text="Proof: `exactness` (after two consecutive finish_cycle calls from ANY state satisfying the invariant, an allocation is undestructed iff it was strongly reachable — cycles of garbage included, nothing retained conservatively), `shells` (whatever else is still allocated is a value-less shell weakly held by the root or a reachable object), `shell_release` (a shell no reachable weak pointer refers to is released by the next full cycle), `reachable_survives`, per-colour sweep facts; arena-level forms `exactness_run` / `shells_run` (two `finish_cycle` API ops on any run state), history-level `unnameable_released_run` / `shell_release_run` (any interleaving of mutation and incremental collection: an allocation that no chain of pointers of either kind names when a cycle wakes is released when that cycle completes; `unheld_shell_can_survive` shows by kernel evaluation why 'not weakly held at wake' alone is not enough once mutation may upgrade an only-weakly-reachable holder mid-cycle). Built on `Tight` (every marked object is justified by reachability when no mutator step intervened), `SameReach` (collector steps never change reachability) and the exit-state/termination theorems of the driver loop. Tie: T1 correspondence; monitor: finish_cycle x2 drop log = complement of shadow reachability; total_gc_count = reachable + weakly held shells.",
    ref="DESIGN §6 C02"),
  "C03": dict(level="proof", tech="Lean 4 (mutator_silent over all ops and states) + correspondence + call-graph table",
    text="Proof for the model + partial for the code's call structure (translator's call resolution by name and rustc trusted): Proof: every mutator operation (everything but collection calls and drop) leaves the event log unchanged and keeps every allocation with its liveness, in every reachable state (C03.mutator_silent_run); held pointers stay valid; link is pure. Tie: T1 correspondence; monitor: no drop/release event bracketed by a callback.",
@@ -34,10 +34,10 @@ CHECKS = {
    text="Proof: each of the four barriers preserves the invariant, keeps every earlier barrier's guarantee and establishes its own, for every phase and colour (C06.backward_barrier, …); every store path preserves Inv; covers persist until the next collection call; general forms license any child / any parent; barriers are bookkeeping only and never fault. Tie: T1/od with explicit barrier profile.",
    ref="DESIGN §6 C06"),
  "C07": dict(level="proof", tech="Lean 4 (marked_sound, marked_exact, resurrect_protects with closure) + correspondence + is_dead monitor",
-   text="Proof: marked_sound (no strongly reachable object is dead when a MarkedArena is handed out), marked_exact (if no mutation happened since this cycle's marking began, is_dead is true exactly for the objects unreachable from the root — even across trace faults), resurrect_none_iff, resurrect_marking, resurrect_queues, resurrect_protects and resurrect_protects_closure (a resurrected object and everything strongly reachable from it is not destructed in this cycle even if stored nowhere), sweep_waits_for_queue. Tie: T1/od finalize profile; is_dead / survival monitors.",
+   text="Proof: marked_sound (no strongly reachable object is dead when a MarkedArena is handed out), marked_exact (if no mutation happened since this cycle's marking began, is_dead is true exactly for the objects unreachable from the root — even across trace faults), resurrect_none_iff, resurrect_marking, resurrect_queues, resurrect_protects / resurrect_protects_closure and the history-level resurrect_protects_run(_closure) (a resurrected object and everything strongly reachable from it is not destructed before the cycle completes, whatever mutation, further finalize rounds and collection increments follow, even if stored nowhere), marked_exact_run, sweep_waits_for_queue. Tie: T1/od finalize profile; is_dead / survival monitors.",
    ref="DESIGN §6 C07"),
  "C08": dict(level="proof", tech="Lean 4 (driver loop: termination measure, exit states per Stop, step-log shape) + self-driven correspondence + protocol monitor",
-   text="Proof: every_call_terminates (the driver loop terminates from every invariant state for every RunUntil/Stop/pacing/debt/fault position), finish_marking_some_iff (Some exactly when not Sweeping), finish_cycle_ends_sleeping, cycle_never_rewakes (nothing follows the Sweep->Sleep switch in one cycle_debt/finish_cycle call), asserts unreachable for every history; micro-step phase order; sweep only from fully marked; mark_debt/finish_marking are no-ops from Marked and from Sweeping; start_sweeping ends Sweeping; callbacks keep the phase. Tie: T1 self-driven (the model computes debt itself; step logs compared); protocol automaton monitor.",
+   text="Proof: every_call_terminates (the driver loop terminates from every invariant state for every RunUntil/Stop/pacing/debt/fault position), finish_marking_some_iff (Some exactly when not Sweeping), finish_cycle_ends_sleeping, cycle_never_rewakes (nothing follows the Sweep->Sleep switch in one cycle_debt/finish_cycle call), asserts unreachable for every history; micro-step phase order; sweep only from fully marked; mark_debt/finish_marking are no-ops from Marked and from Sweeping; start_sweeping ends Sweeping; callbacks keep the phase and never remove pending marking work (callbacks_never_finish_marking, callbacks_move_phase_only_marked_to_marking); observable_phase_order (the phase `collection_phase()` reports moves only along Sleeping -> Marking -> Marked -> Sweeping -> Sleeping under collector steps); arena-level finish_marking_some_iff_run / finish_cycle_ends_sleeping_run. Tie: T1 self-driven (the model computes debt itself; step logs compared); protocol automaton monitor.",
    ref="DESIGN §6 C08"),
  "C09": dict(level="proof", tech="Lean 4 over exact rationals: counting invariant Acc over all histories, rho-bound, sleep, stop-the-world + self-driven correspondence + debt monitors",
    text="Proof: collect_debt_zero, cycle_debt_zero_or_asleep, mark_debt_zero_or_marked (every debt-driven call returns with zero debt or at its stopping phase, from every state, any pacing/debt/fault; mark_debt called while Sweeping does nothing at all and may return with debt — the documented `Stop::FullyMarked <= Stop::AtSweep` behaviour, third disjunct of the theorem); `acc_run` (counting invariant: the credit counters are bounded by colour counts in every reachable state) => credits_bounded, rho_bound_run (history level: H and A' are read off the run — H = total_gc_count in the sleeping state a debt-driven call wakes from, A' = the accepted alloc ops since, any interleaving of mutator ops and collection calls that neither changes the pacing, nor removes artificial debt, nor completes the cycle) / rho_bound / rho_bound_quotient (a cycle that woke in debt with H allocations is unfinished after cycle_debt only if fewer than rho*H/(1-rho) allocations were made since — for any rho-pacing, provided the arena is non-empty), cycles_complete; sleep_schedule (wakeup = max(min_sleep, sleep_factor x survivors)), sleep_honoured, stays_asleep (asleep with no carried debt: debt-driven calls are no-ops and debt reads 0 until allocations exceed the threshold, positive after). Stop-the-world: `stop_the_world` / `stop_the_world_any` (with all work factors zero, collect_debt / cycle_debt called with positive debt return only Sleeping — for every fault position) and `never_parked`; on the pinned tree this clause failed in one corner (defect D5, shown by the check with replay corpus/C09-stw-empty-arena.ops, repaired by /repo commit 73a575a). `pinned_stw_witness` keeps defect D5 recognisable (the pre-repair loop of Model/Legacy.lean returns Sweeping on the corner). C09s (translator): `pacing_default_matches_source`, `pacing_stw_matches_source`, `default_impl_is_default`, `metrics_new_matches_source` — the model's Pacing::DEFAULT / STOP_THE_WORLD / Metrics::new are the source's, regenerated from src/metrics.rs on every run. f64 rounding is modelled by exact rationals; decimal (non-dyadic) pacing incl. Pacing::DEFAULT is compared tolerantly (mode odt). Tie: T1/sd exact counter and debt correspondence on dyadic pacing; monitors (zero debt, no progress asleep, rho-bound, a collection call never increases debt).",
@@ -90,7 +90,7 @@ CHECKS.update({
 
 CHECKS.update({
  "C14": dict(level="proof", tech="Lean 4 invariant proof of the DynamicRootSet slot-table model over all stash/clone/drop/fetch histories + differential correspondence with the real crate (slot-table hook) and drop-log monitors",
-   text="Proof: `DynRoots.inv_run` (every history of stash / stash-again / clone / drop / fetch / try_fetch / contains / set and arena destruction across any number of sets and arenas): `refine` (slot h.index holds h.ptr with ref_count = live handles of that stash), `traced` / `traced_multiset` (the set object reports exactly one pointer per live stash), `traced_while_handle`, `untraced_after_last_drop`, `fetch_identity` (own handle: the stashed pointer; foreign or destroyed-set handle: try_fetch fails, contains false, fetch panics), `free_list`, `no_internal_panic`, `outlive`, `destroyed_forever`. Survival of what is traced is C01 (`inv_run`). Tie 1: harness_dynroots drives the real DynamicRootSet (several sets and arenas, collection increments in every phase, slot reuse, handles outliving arenas), compares the slot table after every operation with the model, and monitors premature destruction / non-collection / foreign acceptance through drop tokens.",
+   text="Proof: `DynRoots.inv_run` (every history of stash / stash-again / clone / drop / fetch / try_fetch / contains / set and arena destruction across any number of sets and arenas): `refine` (slot h.index holds h.ptr with ref_count = live handles of that stash), `traced` / `traced_multiset` (the set object reports exactly one pointer per live stash), `traced_while_handle`, `untraced_after_last_drop`, `fetch_identity` (own handle: the stashed pointer; foreign or destroyed-set handle: try_fetch fails, contains false, fetch panics), `free_list`, `no_internal_panic`, `outlive`, `destroyed_forever`. Composition with the collector as theorems over coupled histories (C14s / Proofs/DynCompose: the set object's slots mirror the slot table after every coupled operation sequence — stash = backward barrier + licensed raw store, last-handle drop = clearing the slot outside any callback): `stashed_survives_while_handle`, `collectable_after_last_drop` (via C02.exactness_run), `fetch_is_the_stashed_object`; restrictions stated there: one arena, sets pinned in root slots, fixed slot capacity. Tie 1: harness_dynroots drives the real DynamicRootSet (several sets and arenas, collection increments in every phase, slot reuse, handles outliving arenas), compares the slot table after every operation with the model, and monitors premature destruction / non-collection / foreign acceptance through drop tokens.",
    ref="DESIGN §6 C14, §12", engine="dynroots", note="Lean 4.33 kernel; axioms propext, Classical.choice, Quot.sound; `Weak::as_ptr` of a dropped Rc never equals a live Rc's address (modelled as never-reused set ids), Vec/RefCell/Rc semantics, 64-bit usize sentinel and non-overflowing ref counts are trusted; the moment an unlinked set is destructed is not observable, the harness tells the model at unlinking"),
 })
 
